@@ -198,6 +198,9 @@ def expr(node: ast.AST, ctx: Ctx) -> str:
             return f"(DNum.sqrt ((DNum.npow {a} 2) + (DNum.npow {b} 2)))"
         if f in ("float", "int") and len(node.args) == 1:
             return expr(node.args[0], ctx)
+        if f in ("abs", "np.abs") and len(node.args) == 1:
+            a = expr(node.args[0], ctx)
+            return f"(if DNum.lt {a} (DNum.lit 0) = true then (-{a}) else {a})"
         if f == "len" and len(node.args) == 1:
             d2 = dotted(node.args[0])
             if d2 in ctx.names and ctx.names[d2][1] == "list":
@@ -221,6 +224,8 @@ def expr(node: ast.AST, ctx: Ctx) -> str:
             args = " ".join(argexpr(a, ctx) for a in node.args)
             return f"({ctx.funcs[f][0]} {args})"
         raise Untranslatable(f"call to {f}")
+    if isinstance(node, ast.IfExp):
+        return f"(if {cond(node.test, ctx)} then {expr(node.body, ctx)} else {expr(node.orelse, ctx)})"
     if isinstance(node, ast.Subscript):
         d = dotted(node.value)
         if d in ctx.names and ctx.names[d][1] == "list":
@@ -1162,13 +1167,24 @@ def gen_scales(record: dict) -> str:
 def gen_residual(record: dict) -> str:
     IA = "droplets/image_analysis.py"
     out = [
-        "/- GENERATED by tools/py2lean.py from droplets/image_analysis.py (refine_droplet._image_deviation) — do not edit. -/",
+        "/- GENERATED by tools/py2lean.py from droplets/image_analysis.py (refine_droplet: residual_scale, _image_deviation) — do not edit. -/",
         "import DropletsVerif.Num",
         "namespace DV.Gen",
         "open DV",
         "",
     ]
     fd = find_def(module_tree(IA), "refine_droplet")
+    # the unit in which deviations are measured: `residual_scale = <expr in vrng>` in the body of refine_droplet (not in a closure)
+    try:
+        sc = [n for n in fd.body if isinstance(n, ast.Assign) and dotted(n.targets[0]) == "residual_scale"]
+        if len(sc) != 1:
+            raise Untranslatable(f"expected one assignment to residual_scale in refine_droplet, found {len(sc)}")
+        body = expr(sc[0].value, Ctx({"vrng": ("vrng", "num")}))
+        record["residual_scale"] = {"source": f"{IA}:refine_droplet (residual_scale)", "ast_sha": ast_hash(sc[0]), "status": "ok"}
+        out.append(f"def residual_scale {{α : Type}} [DNum α] (vrng : α) : α :=\n  {body}\n")
+    except Untranslatable as e:
+        record["residual_scale"] = {"source": f"{IA}:refine_droplet (residual_scale)", "status": "untranslated", "why": str(e)}
+        out.append(f"/- UNTRANSLATED: {e} -/\ndef residual_scale {{α : Type}} [DNum α] (vrng : α) : α :=\n  DNum.untranslated\n")
     inner = [n for n in ast.walk(fd) if isinstance(n, ast.FunctionDef) and n.name == "_image_deviation"]
     names = ["residual_fitted_levels", "residual_fixed_levels"]
     try:
@@ -1179,23 +1195,27 @@ def gen_residual(record: dict) -> str:
             ret = [n.value for n in ast.walk(f) if isinstance(n, ast.Return)]
             if len(img) != 1 or len(ret) != 1:
                 raise Untranslatable("img / return statements of _image_deviation")
-            # droplet._get_phase_field(phase_field.grid)[mask]  ->  render ;  data_mask -> data
+            if any(isinstance(n, ast.Assign) and any("residual_scale" in (dotted(t) or "") or any(dotted(e) == "residual_scale" for e in getattr(t, "elts", []))
+                                                  for t in n.targets) for n in ast.walk(f)):
+                raise Untranslatable("residual_scale is reassigned inside _image_deviation")
+            # droplet._get_phase_field(phase_field.grid)[mask]  ->  render ;  data_mask -> data ; residual_scale -> scale (fixed before the fit)
             class R(ast.NodeTransformer):
                 def visit_Subscript(self, n):
                     if isinstance(n.value, ast.Call) and dotted(n.value.func) == "droplet._get_phase_field":
                         return ast.Name(id="render", ctx=ast.Load())
                     return self.generic_visit(n)
             e_img = R().visit(img[0])
-            ctx = Ctx({"vmin": ("vmin", "num"), "vrng": ("vrng", "num"), "render": ("render", "num"), "data_mask": ("data", "num")})
+            ctx = Ctx({"vmin": ("vmin", "num"), "vrng": ("vrng", "num"), "render": ("render", "num"), "data_mask": ("data", "num"),
+                       "residual_scale": ("scale", "num")})
             v = expr(e_img, ctx)
             ctx.names["img"] = ("img", "num")
             body = f"let img := {v}; {expr(ret[0], ctx)}"
             record[name] = {"source": f"{IA}:refine_droplet._image_deviation", "ast_sha": ast_hash(f), "status": "ok"}
-            out.append(f"def {name} {{α : Type}} [DNum α] (vmin vrng render data : α) : α :=\n  {body}\n")
+            out.append(f"def {name} {{α : Type}} [DNum α] (vmin vrng render data scale : α) : α :=\n  {body}\n")
     except Untranslatable as e:
         for name in names:
             record[name] = {"source": f"{IA}:refine_droplet._image_deviation", "status": "untranslated", "why": str(e)}
-            out.append(f"/- UNTRANSLATED: {e} -/\ndef {name} {{α : Type}} [DNum α] (vmin vrng render data : α) : α :=\n  DNum.untranslated\n")
+            out.append(f"/- UNTRANSLATED: {e} -/\ndef {name} {{α : Type}} [DNum α] (vmin vrng render data scale : α) : α :=\n  DNum.untranslated\n")
     out.append("end DV.Gen\n")
     return "\n".join(out)
 
